@@ -20,6 +20,7 @@ import (
 
 	c4eapp "github.com/chain4energy/c4e-chain/app"
 	"github.com/cosmos/cosmos-sdk/client/tx"
+	"github.com/cosmos/cosmos-sdk/codec"
 	"github.com/cosmos/cosmos-sdk/codec/legacy"
 	codectypes "github.com/cosmos/cosmos-sdk/codec/types"
 	sdk "github.com/cosmos/cosmos-sdk/types"
@@ -193,3 +194,70 @@ func txResult(r abci.ResponseDeliverTx) (res MsgResult) {
 }
 
 var _ = codectypes.NewAnyWithValue
+
+// SignTxMulti builds a SIGN_MODE_DIRECT transaction signed by several accounts (the signers of its
+// messages in order of first appearance).
+func SignTxMulti(w *World, signers []Acc, accNums, seqs []uint64, o TxOpts, msgs ...sdk.Msg) (bz []byte, err error) {
+	defer func() {
+		if r := notRapid(recover()); r != nil {
+			err = fmt.Errorf("building the transaction panicked: %v", r)
+		}
+	}()
+	txCfg := w.Enc.TxConfig
+	b := txCfg.NewTxBuilder()
+	if err := b.SetMsgs(msgs...); err != nil {
+		return nil, err
+	}
+	gas := o.Gas
+	if gas == 0 {
+		gas = 2_000_000
+	}
+	b.SetGasLimit(gas)
+	b.SetFeeAmount(sdk.NewCoins())
+	mode := signing.SignMode_SIGN_MODE_DIRECT
+	var sigs []signing.SignatureV2
+	for i, s := range signers {
+		sigs = append(sigs, signing.SignatureV2{PubKey: s.Priv.PubKey(), Data: &signing.SingleSignatureData{SignMode: mode}, Sequence: seqs[i]})
+	}
+	if err := b.SetSignatures(sigs...); err != nil {
+		return nil, err
+	}
+	sigs = nil
+	for i, s := range signers {
+		sd := authsigning.SignerData{Address: s.Addr.String(), ChainID: ChainID, AccountNumber: accNums[i], Sequence: seqs[i], PubKey: s.Priv.PubKey()}
+		sig, err := tx.SignWithPrivKey(mode, sd, b, s.Priv, txCfg, seqs[i])
+		if err != nil {
+			return nil, err
+		}
+		sigs = append(sigs, sig)
+	}
+	if err := b.SetSignatures(sigs...); err != nil {
+		return nil, err
+	}
+	return txCfg.TxEncoder()(b.GetTx())
+}
+
+// WireForm returns msg as a node sees it after it travelled in a transaction: marshalled and
+// unmarshalled with the application's codec (an empty non-nil slice arrives as nil, and so on).  A
+// message that cannot make the trip is returned as it is.
+func WireForm(a *c4eapp.App, msg sdk.Msg) (out sdk.Msg) {
+	out = msg
+	defer func() {
+		if r := notRapid(recover()); r != nil {
+			out = msg
+		}
+	}()
+	pm, ok := msg.(codec.ProtoMarshaler)
+	if !ok {
+		return msg
+	}
+	bz, err := a.AppCodec().Marshal(pm)
+	if err != nil {
+		return msg
+	}
+	var back sdk.Msg
+	if err := a.InterfaceRegistry().UnpackAny(&codectypes.Any{TypeUrl: sdk.MsgTypeURL(msg), Value: bz}, &back); err != nil || back == nil {
+		return msg
+	}
+	return back
+}
